@@ -90,6 +90,9 @@ func aggregateDerive(rng *rand.Rand, root *model.Root) *model.Root {
 		if col.Name == key || col.Name == model.IDCol {
 			continue
 		}
+		if rng.Intn(3) == 0 {
+			continue // aggregate only a subset: the result then has fewer columns than its source
+		}
 		switch col.Kind {
 		case model.KInt:
 			aggs = append(aggs, qframe.Aggregation{Column: col.Name, Fn: func(v []int) int { return v[0] }})
